@@ -74,9 +74,65 @@ def auto_py_df(x=1.0, z=array([0.0, 0.0])):  # noqa: B008
     return array([[2.0, z[1], z[0]], [1.0, -1.0, 0.0]])
 
 
+_FACTORY = None
+FACTORY_SKIP = {"XLSDiscipline", "DiscFromExe", "JobSchedulerDisciplineWrapper", "LSF", "SLURM"}  # external tools
+
+
+def factory_catalogue():
+    """Every class of the discipline factory that can be instantiated without argument and executed with its
+    default inputs: [(class name, linearizable)] - discovered once per process, in name order."""
+    global _FACTORY
+    if _FACTORY is None:
+        from gemseo.disciplines.factory import DisciplineFactory
+
+        fac = DisciplineFactory()
+        found = []
+        for name in sorted(fac.class_names):
+            if name in FACTORY_SKIP:
+                continue
+            try:
+                d = fac.create(name)
+                d.execute()
+            except Exception:  # noqa: BLE001
+                continue
+            try:
+                jac = d.linearize(compute_all_jacobians=True)
+                # (a 10^4 x 10^4 sparse Jacobian cannot be compared densely: such a class is run execute-only)
+                lin = all(int(np.prod(v.shape)) <= 10**6 for jo in jac.values() for v in jo.values())
+            except Exception:  # noqa: BLE001
+                lin = False
+            found.append((name, lin))
+        _FACTORY = found
+    return _FACTORY
+
+
+def warmup():
+    factory_catalogue()
+
+
 def build_discipline(t, ctx):
     from gemseo import create_discipline
     from gemseo.core.discipline import Discipline
+
+    if t.flag(0.3, "factory_class"):
+        # the quantifier: every discipline class of the factory that needs no external tool
+        from gemseo.disciplines.factory import DisciplineFactory
+
+        cat = factory_catalogue()
+        name, lin = cat[t.choice(len(cat), "factory_index")]
+        cache = CACHES[t.weighted([3, 3, 0, 0, 2], "cache")]
+        d = DisciplineFactory().create(name)
+        base = {k: np.array(v, dtype=float, copy=True) for k, v in d.io.input_grammar.defaults.items() if isinstance(v, np.ndarray) and v.dtype.kind in "fi"}
+        first = sorted(base)[0] if base else None
+        inputs = [{}, {k: v * 1.01 for k, v in base.items()}, ({first: base[first] * 0.99} if first else {}), {k: v * 1.0 for k, v in base.items()}]
+        if cache == "SimpleCache":
+            d.set_cache("SimpleCache")
+        elif cache == "HDF5Cache":
+            d.set_cache("HDF5Cache", hdf_file_path=str(ctx.scratch / "c20_cache.h5"), hdf_node_path="n")
+        else:
+            d.set_cache(Discipline.CacheType.NONE)
+        ctx.probe("factory_class_pickled")
+        return d, inputs, f"discipline:factory:{name}/{cache}" + ("" if lin else "/exec-only"), "MDA" in name, cache
 
     kind = t.pick(DISC_KINDS, "disc_kind")
     grammar = t.pick(["JSONGrammar", "SimpleGrammar"], "grammar")
@@ -195,7 +251,38 @@ def in_child(blob, fn):
     return pickle.loads(data)
 
 
-def in_fresh_interpreter(ctx, blob, suffix, inputs, hash_seed):
+def child_discipline(req):
+    c = pickle.loads(req["blob"])
+    out = [do_op(c, op, req["inputs"]) for op in req["suffix"]]
+    return out, grammar_view(c), c.execution_statistics.n_executions
+
+
+def problem_view(prob, xe):
+    """What a user sees of a (restored) problem: the recorded history by look-up, counters, a replayed evaluation."""
+    db = prob.database
+    name = prob.objective.name
+    xs = [np.array(x, copy=True) for x in db.get_x_vect_history()]
+    look = [(bool(x in db), canon(db.get_function_value(name, x)), canon(db.get_function_value(name, i + 1))) for i, x in enumerate(xs)]
+    n_before = len(db)
+    calls_before = getattr(prob.objective, "n_calls", None)
+    prob.evaluation_counter.maximum = 10**6
+    v = canon(prob.objective.evaluate(np.array(xe, copy=True)))
+    replay = None
+    if xs and prob.objective.__class__.__name__ == "ProblemFunction":
+        # an already recorded point is served from the history: no new entry
+        x0 = xs[0]
+        x0 = prob.design_space.normalize_vect(x0) if prob.objective.expects_normalized_inputs else x0
+        prob.objective.evaluate(x0)
+        replay = len(db)
+    return {"n": n_before, "lookups": look, "counter": prob.evaluation_counter.current, "value": v, "entries_after_replay": replay,
+            "points": canon(xs)}
+
+
+def child_problem(req):
+    return problem_view(pickle.loads(req["blob"]), req["xe"])
+
+
+def in_fresh_interpreter(ctx, blob, suffix, inputs, hash_seed, **more):
     """Unpickle ``blob`` in a new interpreter started with another hash seed, run ``suffix`` there."""
     import subprocess
     import sys
@@ -204,7 +291,7 @@ def in_fresh_interpreter(ctx, blob, suffix, inputs, hash_seed):
 
     req, rep = ctx.scratch / "req.pkl", ctx.scratch / "rep.pkl"
     with open(req, "wb") as f:
-        pickle.dump({"blob": blob, "suffix": suffix, "inputs": inputs}, f)
+        pickle.dump({"blob": blob, "suffix": suffix, "inputs": inputs, **more}, f)
     env = {**os.environ, "PYTHONHASHSEED": str(hash_seed)}
     try:
         cp = subprocess.run([sys.executable, os.path.join(os.path.dirname(os.path.abspath(__file__)), "_c20_child.py"), str(req), str(rep)],
@@ -313,8 +400,11 @@ def run_discipline_like(ctx, d, inputs, label, iterative, cache):
     rtol = 1e-6 if iterative else 0.0
     n_pre = t.randint(0, 4, "n_prefix")
     prefix = [(t.pick(["exec", "lin", "exec", "lin", "make_optional", "set_default", "fd_mode"], f"pre_kind[{i}]"), t.choice(len(inputs), f"pre_in[{i}]")) for i in range(n_pre)]
-    if iterative or label.startswith("process:"):
+    if iterative or label.startswith(("process:", "discipline:factory:")):
         prefix = [(("exec" if kd == "fd_mode" else kd), k) for kd, k in prefix]  # (approximation settings: plain disciplines only)
+    exec_only = label.endswith("/exec-only")
+    if exec_only:
+        prefix = [(("exec" if kd == "lin" else kd), k) for kd, k in prefix]
     if any(kd == "fd_mode" for kd, _ in prefix):
         suffix_force_lin = True
     else:
@@ -325,6 +415,8 @@ def run_discipline_like(ctx, d, inputs, label, iterative, cache):
     suffix = [(t.pick(["exec", "lin"], f"suf_kind[{i}]"), t.choice(len(inputs), f"suf_in[{i}]")) for i in range(n_suf)]
     if suffix_force_lin:
         suffix = [("lin", k) for _, k in suffix]
+    if exec_only:
+        suffix = [("exec", k) for _, k in suffix]
     sig = label
     tname = ["pickle", "to_pickle-file", "fork", "other-interpreter"][transport]
     ctx.event("cfg", label, canon(prefix), tname, canon(suffix))
@@ -335,6 +427,15 @@ def run_discipline_like(ctx, d, inputs, label, iterative, cache):
         # a discipline without analytic Jacobian: restrict the run to executions
         prefix = [(kd if kd in ("make_optional", "set_default", "fd_mode") else "exec", k) for kd, k in prefix]
         suffix = [("exec", k) for _, k in suffix]
+    except Exception as exc:  # noqa: BLE001
+        if not label.startswith("discipline:factory:"):
+            raise
+        # what an original factory discipline does before any pickling is not C20's subject (e.g. DensityFilter
+        # cannot store its 10^4 x 10^4 sparse Jacobian in an HDF5 cache): the run ends here
+        ctx.probe(f"original_raised_before_pickling[{label.split(':')[2].split('/')[0]}:{type(exc).__name__}]")
+        ctx.event("original_raised", type(exc).__name__)
+        ctx.case((label, "original raised"), nontrivial=False)
+        return
     g0 = grammar_view(d)
     n_exec0 = d.execution_statistics.n_executions
     cache_len0 = len(d.cache) if d.cache is not None else None
@@ -577,6 +678,29 @@ def run_functions(ctx):
         from gemseo.algos.opt.factory import OptimizationLibraryFactory
 
         OptimizationLibraryFactory().execute(prob, algo_name="SLSQP", max_iter=4)
+    if t.flag(0.3, "other_interpreter"):
+        # the problem travels as bytes to an interpreter started with another hash seed (a later session)
+        other_seed = 1 + t.choice(40, "other_hash_seed")
+        ctx.event("cfg", label, moment, "other-interpreter", other_seed)
+        ctx.fire("serialise_other-interpreter")
+        x = prob.design_space.get_current_value()
+        xe = prob.design_space.normalize_vect(x) if prob.objective.expects_normalized_inputs else x
+        try:
+            blob = pickle.dumps(prob)
+        except Exception as exc:  # noqa: BLE001
+            ctx.violate("C20.picklable", f"{label} raised={type(exc).__name__}", f"pickling {label} at moment {moment} raised {exc!r}")
+        status, res = in_fresh_interpreter(ctx, blob, None, None, other_seed, fn="child_problem", xe=xe)
+        ctx.probe("restored_under_another_hash_seed")
+        if status != "ok":
+            ctx.violate("C20.behaves_like_original", f"{label} other-interpreter raised", f"the restored problem raised in the other interpreter: {res}")
+        exp = problem_view(prob, xe)
+        ctx.event("view", canon(res))
+        diff = [k for k in exp if exp[k] != res[k]]
+        if diff:
+            ctx.violate("C20.behaves_like_original", label + " other-interpreter", f"the problem restored in another interpreter differs in {diff}: original { {k: exp[k] for k in diff} } restored { {k: res[k] for k in diff} }")
+        ctx.case((label, moment, "other-interpreter"), nontrivial=moment > 0)
+        ctx.sample = {"object": label, "moment": ["fresh", "preprocessed", "solved"][moment], "transport": "other-interpreter"}
+        return
     ctx.event("cfg", label, moment, transport)
     ctx.fire("serialise_" + ["pickle", "to_pickle-file"][transport])
     try:
